@@ -26,7 +26,7 @@
   particular a `let` is visible to the end of its block and not after it, and shadows an outer name only
   there; whenever the specification yields an error the model yields an error.  Expressions are those of
   Props/C01's fragment at full width (`C01.fragO true`): `$ij`, access chains, list / map literals, the builtins
-  isNonnull / length / strContains / hasData / range / min / max / keys / augmentMap, all operators — the
+  isNonnull / length / strContains / hasData / range / min / max / keys / augmentMap / floor / ceiling, all operators — the
   ordering comparisons `< > <= >=` included.
 
   data="all": `Rel` carries, next to the bindings, `EntRel`: the frames `alldata` passes from the running
@@ -55,7 +55,7 @@
 
   Still outside (exactly): index / isFirst / isLast (Props/C01 has them under `LoopRel` — `eval_refines_spec_loops`;
   supplying `LoopRel` here needs "every list a {foreach} of the execution ranges over is shorter than 2^63" threaded
-  through this induction: not done), round / floor / ceiling, randomInt.  (A map literal whose tree repeats a key
+  through this induction: not done), round, randomInt.  (A map literal whose tree repeats a key
   is outside too, but no parser produces one: `C01.mapFragO_of_sorted`.)
 
   `loop_hides_only_its_variable`: a loop over `$x` changes the lookup of no variable name other than `x` (the
